@@ -34,6 +34,29 @@ SEED32 = bytes(range(32))
 SEED64 = bytes(range(64))
 
 
+def _try_key(f):
+    """soft derivation may be refused with the documented key error (SLIP-0010 ed25519): anything else propagates"""
+    from bip_utils import Bip32KeyError
+    try:
+        return f()
+    except Bip32KeyError:
+        return None
+
+
+def cbor_tag_seeds():
+    """Byron-shaped Base58 texts whose CBOR carries semantic tags with ill-typed content: cbor2's tag handlers run on them"""
+    import cbor2
+    out = []
+    for tag in list(range(0, 6)) + [21, 22, 23, 24, 28, 29, 30, 32, 33, 34, 35, 36, 37, 100, 258, 260, 261, 1004, 55799]:
+        for inner in (1.5, "x", b"12", [1, 0], [1, "a"], {}, None, -1):
+            try:
+                raw = cbor2.dumps([cbor2.CBORTag(tag, inner), 0])
+            except Exception:  # noqa
+                continue
+            out.append(Base58Encoder.Encode(raw))
+    return out
+
+
 def entry_points(rng):
     """list of (name, kind, callable, [valid seeds], model-case-builder or None)"""
     E = []
@@ -57,7 +80,7 @@ def entry_points(rng):
     bya = byl.GetAddress(0, 0)
     sh = CardanoShelley.FromCip1852Object(Cip1852.FromSeed(SEED32, Cip1852Coins.CARDANO_ICARUS).Purpose().Coin().Account(0)).Change(Bip44Changes.CHAIN_EXT).AddressIndex(0)
     E += [
-        ("AdaByronAddrDecoder.DecodeAddr", "str", AdaByronAddrDecoder.DecodeAddr, [icarus, bya], None),
+        ("AdaByronAddrDecoder.DecodeAddr", "str", AdaByronAddrDecoder.DecodeAddr, [icarus, bya] + cbor_tag_seeds(), None),
         ("CardanoByronLegacy.HdPathFromAddress", "str", byl.HdPathFromAddress, [bya], None),
         ("AdaByronAddrDecoder.DecryptHdPath", "bytes", lambda b: AdaByronAddrDecoder.DecryptHdPath(b, byl.HdPathKey()), [AdaByronAddrDecoder.DecodeAddr(bya)[28:]], None),
         ("AdaShelleyAddrDecoder.DecodeAddr", "str", AdaShelleyAddrDecoder.DecodeAddr, [sh.PublicKeys().ToAddress()], None),
@@ -106,6 +129,12 @@ def entry_points(rng):
         E.append((cls.__name__ + ".FromSeed", "bytes", cls.FromSeed, [SEED32],
                   (lambda n: lambda b: Case("master", [n, hx(b)], "model"))(nm) if model_x else None))
         E.append((cls.__name__ + ".FromPrivateKey", "bytes", cls.FromPrivateKey, [m.PrivateKey().Raw().ToBytes()], None))
+        # a key object built from raw bytes is then USED: whatever the constructor accepted must not make derivation escape
+        kb_ = m.PrivateKey().Raw().ToBytes()
+        raw_seeds = [kb_, b"\xff" * len(kb_), b"\xff" * 32 + b"\x01" * (len(kb_) - 32), b"\x00" * (len(kb_) - 1) + b"\x01", b"\x7f" + b"\xff" * (len(kb_) - 1), b"\xff" * 31 + b"\x7f" + bytes(len(kb_) - 32)]
+        E.append((cls.__name__ + ".FromPrivateKey+ChildKey", "bytes",
+                  (lambda c_: lambda b: [c_.FromPrivateKey(b).ChildKey(i).PublicKey().RawCompressed().ToBytes() for i in (2**31, 2**31 + 7)] and
+                   [_try_key(lambda: c_.FromPrivateKey(b).ChildKey(i)) for i in (0, 5)])(cls), raw_seeds, None))
         E.append((cls.__name__ + ".FromPublicKey", "bytes", cls.FromPublicKey, [m.PublicKey().RawCompressed().ToBytes()], None))
         E.append((cls.__name__ + ".DerivePath", "str", m.DerivePath, ["m/0'/1'", "0'/2'"], None))
     E += [
